@@ -131,6 +131,7 @@ class IdxE:
     why: str = ''
     descr: str = ''
     const: Optional[int] = None
+    succ: Any = None        # (kind, anchor, slack): the position right after the node just inserted here
     born: int = 0
 
 
@@ -148,6 +149,7 @@ class ListE:
     stages: Tuple[str, ...] = ()      # pipeline description
     spec: Any = None                  # slice spec
     tuple_: bool = False
+    distinct: bool = False            # elements are pairwise distinct nodes (established by 'x in L' tests before append)
     born: int = 0
 
 
@@ -346,10 +348,11 @@ class State:
             elif t is IdxE:
                 p, a = e.parent, e.anchor
                 k = ('i', e.kind, (mapping[p] if p in mapping else skey(p)) if p else None,
-                     (mapping[a] if a in mapping else skey(a)) if a else None, e.delta, e.slack, e.const)
+                     (mapping[a] if a in mapping else skey(a)) if a else None, e.delta, e.slack, e.const,
+                     (e.succ[0], (mapping[e.succ[1]] if e.succ[1] in mapping else skey(e.succ[1])) if e.succ[1] else None, e.succ[2]) if e.succ else None)
             elif t is ListE:
                 k = ('l', e.kind, e.lo, e.hi, skey(e.parent) if e.parent else None, e.tag,
-                     tuple([vkey(x) for x in e.items]), skey(e.src) if e.src else None, e.ordered, e.spec)
+                     tuple([vkey(x) for x in e.items]), skey(e.src) if e.src else None, e.ordered, e.spec, e.distinct)
             elif t is ObjE:
                 k = ('o', e.cls, tuple([(a, vkey(b)) for a, b in e.fields]))
             elif t is DictE:
@@ -387,6 +390,8 @@ class State:
             elif name == 'itlog':
                 mk.append((name, tuple(sorted((a, tuple((r[0],) + tuple(cs(x) if x is not None else None for x in r[1:]) for r in b))
                                               for a, b in v.items()))))
+            elif name == 'sym:fromlist':
+                mk.append((name, tuple(sorted(((cs(a), cs(b)) for a, b in v.items() if a in mapping), key=repr))))
             elif name.startswith('sym:'):
                 # dict keyed by heap symbol, plain values
                 mk.append((name, tuple(sorted(((cs(a), b) for a, b in v.items() if a in mapping), key=repr))))
